@@ -27,7 +27,8 @@ func (t *Tree) computeEdgeHashesRightRecur(cur, prev *Node, e *Edge) {
 		e.ntaxright = 0
 		e.hashcoderight = 0
 	}
-	if cur.Tip() {
+	// e == nil: cur is the root, even if it has only one neighbor
+	if cur.Tip() && e != nil {
 		//tipIndex, _ := t.TipIndex(cur.Name())
 		e.hashcoderight = tax_hash(cur.Name())
 		e.ntaxright++
